@@ -1,5 +1,5 @@
 (* Run/C16: evaluation of model and property on harness cases. *)
-From DnsV Require Import Base.Bytes Model.Cdb.
+From DnsV Require Import Base.Bytes Spec.Cdb Model.Cdb.
 Open Scope N_scope.
 
 Inductive kind := KSmall | KBig | KMake.
@@ -85,8 +85,7 @@ Definition model_ok (c : case) : bool :=
   end.
 
 (* the property itself, evaluated on the implementation's observations *)
-Definition key_eqb (k : bytes) (p : kv) : bool := bytes_eqb k (fst p).
-Definition spec_vals (kvs : list kv) (k : bytes) : list bytes := map snd (filter (key_eqb k) kvs).
+(* [spec_vals] (Spec/Cdb.v): values of the pairs with this key, in insertion order *)
 Definition opt_is (o : option bytes) (l : list bytes) : bool :=
   match o, l with
   | None, [] => true
